@@ -1,7 +1,7 @@
 """C15 - edge-selection policies are obeyed exactly and recorded truthfully."""
 from ..common import Result
 from ..harness_factory import FactoryRun, FOracle
-from ..fanalysis import NodeBook, policy_class
+from ..fanalysis import NodeBook, edge_room, edge_avail, policy_class
 from .. import gen_factory
 
 PROP = "C15"
@@ -23,6 +23,8 @@ ASSUMPTIONS = ["Source keeps no selection history: only its routing is compared"
 PROFILE = {"conveyors": False, "pack": 2, "finite": 2,
            "policies": ["FIRST_AVAILABLE", "ROUND_ROBIN", "ROUND_ROBIN", "RANDOM", "const", "callable", "callable", "generator", "generator"]}
 PROFILE_BAD = dict(PROFILE, bad_index=True, pack=0)
+# senders with several parallel edges to one slow receiver, mostly FIRST_AVAILABLE
+PROFILE_PAR = dict(PROFILE, pack=0, finite=0, parallel=8, policies=["FIRST_AVAILABLE", "FIRST_AVAILABLE", "FIRST_AVAILABLE", "ROUND_ROBIN", "callable"])
 # congested pack lines whose combiner / splitter chooses among several out-edges, mostly under FIRST_AVAILABLE
 PROFILE_PACK = dict(PROFILE, pack=10, finite=0, split_fanin=5, policies=["FIRST_AVAILABLE", "FIRST_AVAILABLE", "FIRST_AVAILABLE", "ROUND_ROBIN", "callable"])
 
@@ -33,7 +35,7 @@ def examples(tier):
 
 def strategy(tier):
     from hypothesis import strategies as st
-    return st.one_of(gen_factory.factories(PROFILE), gen_factory.factories(PROFILE), gen_factory.factories(PROFILE_PACK),
+    return st.one_of(gen_factory.factories(PROFILE), gen_factory.factories(PROFILE_PAR), gen_factory.factories(PROFILE_PACK),
                      gen_factory.factories(PROFILE_BAD).map(lambda s: dict(s, bad_index_profile=True)))
 
 
@@ -51,6 +53,7 @@ class PolicyOracle(FOracle):
         self.bad = None      # (node, what, answer, t) first out-of-range answer consulted
         self.pref_unavailable = False
         self.rich = False
+        self.withdrawn_able = {}
 
     def sig(self, f, nid, side, clause, *more):
         ns = f.node_spec[nid]
@@ -71,6 +74,43 @@ class PolicyOracle(FOracle):
                         self.bad = (owner, what, v, f.env.now, len(f.ledger))
                     return v
                 src.next_value = wrapped
+
+    def on_entry(self, f, e):
+        """FIRST_AVAILABLE, at the instant of choice: a blocking node commits to an edge and withdraws - in the same kernel
+        step - a still pending request on a LOWER-index Buffer / Fleet edge although that edge is able to serve (room / an
+        available unreserved item)"""
+        if e.exc is not None or e.op not in ("put", "get", "cp", "cg"):
+            return
+        side = "out" if e.op in ("put", "cp") else "in"
+        nid = f.edge_spec[e.edge]["src" if side == "out" else "dst"]
+        ns = f.node_spec[nid]
+        if self.kinds.get(nid) not in ("Machine", "Splitter", "Combiner", "Source", "Sink"):
+            return
+        pol = ns.get("out_sel" if side == "out" else "in_sel", "FIRST_AVAILABLE")
+        if pol != "FIRST_AVAILABLE" or (side == "out" and not ns.get("blocking", True)):
+            return
+        if side == "in" and self.kinds[nid] == "Combiner":
+            return
+        idx = self.book.out_idx if side == "out" else self.book.in_idx
+        i = idx.get((nid, e.edge))
+        if i is None:
+            return
+        key = (nid, side, id(e.proc))
+        if e.op in ("cp", "cg"):
+            if e.was_triggered or f.edge_spec[e.edge]["kind"] not in ("Buffer", "Fleet"):
+                return
+            able = edge_room(f, e.edge) if side == "out" else edge_avail(f, e.edge)
+            if able > 0:
+                self.withdrawn_able.setdefault(key, []).append((e.k, i, e.edge, able))
+            return
+        for (k, li, eid, able) in self.withdrawn_able.get(key, []):
+            if k == e.k and li < i:
+                self.res.violate(self.sig(f, nid, side, "first_available", "lower_index_able_to_serve"),
+                                 "%s used edge index %d (%s) at t=%s and withdrew its still pending request on index %d (%s) although that edge "
+                                 "%s" % (nid, i, e.edge, e.t, li, eid,
+                                         "had room for %d" % able if side == "out" else "held %d available unreserved item(s)" % able))
+                break
+        self.withdrawn_able.pop(key, None)
 
     def delay_of(self, f, nid, j):
         src = f.sources.get((nid, "delay"))
